@@ -166,6 +166,12 @@ class PauseTransparent(Monitor):
                          "detail": {"twin_in_flight": twin.h["inflight"]}}]
             return []
         if main_status != st.SUCCEEDED:
+            if twin.status in (st.SUCCEEDED, st.FAILED, st.CANCELED) and not twin.h["inflight"] \
+                    and not sim.h["need_dispatch"] and g["phase"] == 2:
+                return [{"kind": "outcome_differs_from_unpaused_run",
+                         "sig": {"aspect": "status", "paused_run": main_status, "unpaused_run": twin.status,
+                                 "after_partial_join_rerun": sim.h["rejoin"] or twin.h["rejoin"]},
+                         "detail": {"note": "the resumed run is at rest in a non-terminal status"}}]
             return []
         if twin.h["inflight"]:
             return [{"kind": "outcome_differs_from_unpaused_run",
